@@ -63,6 +63,16 @@ pub fn mem_lens(mode: Mode, tier: Tier) -> (Vec<usize>, usize) {
     (l, dense_n)
 }
 
+/// (n, k): calls with MANY chunks and several MiB in one buffer (batch-size- and byte-size-gated paths in the shared
+/// chunking helpers); well-shaped, exact scratch, end-flush placement
+pub fn many_chunks(tier: Tier) -> Vec<(usize, usize)> {
+    let mut v = vec![(4096usize, 130usize), (16384, 33), (1000, 600), (17, 40000), (64, 9000)];
+    if tier == Tier::Thorough {
+        v.extend_from_slice(&[(37, 20000), (1024, 1025), (65536, 17), (243, 5000), (59, 12000)]);
+    }
+    v
+}
+
 fn key_from_fields(f: &[i64]) -> String {
     let mode = if f[0] == 15 { "C15" } else { "C03" };
     let pk = PK::ALL.get(f[1].max(0) as usize).map(|p| p.name()).unwrap_or("?");
@@ -79,7 +89,11 @@ fn key_from_fields(f: &[i64]) -> String {
         f[6],
         f[7],
         f[8],
-        if f[9] == 0 { "end" } else { "start" },
+        match f[9] {
+            0 => "end",
+            1 => "start",
+            _ => "minaligned",
+        },
         mask
     )
 }
@@ -98,7 +112,11 @@ fn fields_from_key(key: &str) -> Option<[i64; NFIELDS]> {
     f[6] = m.get("data")?.parse().ok()?;
     f[7] = m.get("out")?.parse().ok()?;
     f[8] = m.get("scratch")?.parse().ok()?;
-    f[9] = if m.get("place")? == "end" { 0 } else { 1 };
+    f[9] = match m.get("place")?.as_str() {
+        "end" => 0,
+        "start" => 1,
+        _ => 2,
+    };
     if let Some(mb) = m.get("maskbits").and_then(|s| s.parse::<i64>().ok()) {
         f[11] = mb;
     }
@@ -225,7 +243,7 @@ impl Worker {
                     let ei = Entry::ALL.iter().position(|x| *x == e).unwrap() as i64;
                     let adv = e.scratch_len(fft.as_ref());
                     for (dl, ol, sl) in shapes(self.mode, n, e, adv, kmax) {
-                        for (pi, place) in Place::BOTH.iter().enumerate() {
+                        for (pi, place) in Place::ALL.iter().enumerate() {
                             self.counter += 1;
                             if self.counter <= self.skip_upto {
                                 continue;
@@ -245,6 +263,56 @@ impl Worker {
                             self.one_case::<T>(fft.as_ref(), e, n, dl, ol, sl, *place, &f);
                         }
                     }
+                }
+            }
+        }
+    }
+
+    /// one well-shaped call with k chunks per (planner, direction, entry point); scratch exactly as advertised
+    fn run_many<T: Real>(&mut self, n: usize, k: usize) {
+        let tycode = if T::NAME == "f32" { 32 } else { 64 };
+        for (pki, &pk) in PK::ALL.iter().enumerate() {
+            if pk == PK::Auto {
+                continue;
+            }
+            let mut pl = match AnyPlanner::<T>::new(pk) {
+                Some(p) => p,
+                None => continue,
+            };
+            for (di, d) in DIRS.iter().enumerate() {
+                let fft = match plan_catch(&mut pl, n, *d) {
+                    Ok(x) => x,
+                    Err(_) => continue,
+                };
+                let entries: &[Entry] = match self.mode {
+                    Mode::C03 => &Entry::ALL,
+                    Mode::C15 => &[Entry::Immut],
+                };
+                for &e in entries {
+                    let adv = e.scratch_len(fft.as_ref());
+                    let mut f = [-1i64; NFIELDS];
+                    f[0] = self.mode.code();
+                    f[1] = pki as i64;
+                    f[2] = tycode;
+                    f[3] = di as i64;
+                    f[4] = n as i64;
+                    f[5] = Entry::ALL.iter().position(|x| *x == e).unwrap() as i64;
+                    f[6] = (n * k) as i64;
+                    f[7] = if e.has_output() || self.mode == Mode::C15 { (n * k) as i64 } else { 0 };
+                    f[8] = adv as i64;
+                    f[9] = 0;
+                    self.counter += 1;
+                    f[10] = self.counter;
+                    if self.counter <= self.skip_upto {
+                        continue;
+                    }
+                    if let Some(s) = &self.single {
+                        if s[..10] != f[..10] {
+                            continue;
+                        }
+                    }
+                    mem::set_current(&f);
+                    self.one_case::<T>(fft.as_ref(), e, n, n * k, f[7] as usize, adv, Place::EndFlush, &f);
                 }
             }
         }
@@ -349,13 +417,27 @@ pub fn worker_main(args: &[String]) -> i32 {
     // length with 8 chunks needs more than the largest length with 2)
     let _ = (dense_n, kmax_dense);
     let elems = |n: usize| -> usize { (if n > 16000 { 2 } else { 8 }) * n + n + 2 };
-    let bytes = my.iter().map(|&n| elems(n)).max().unwrap_or(4) * 16;
+    let mc: Vec<(usize, usize)> = if single.is_some() { Vec::new() } else { many_chunks(tier).into_iter().enumerate().filter(|(i, _)| i % nstripes == stripe).map(|(_, x)| x).collect() };
+    let single_elems = single.as_ref().map(|s| (s[6].max(s[7]).max(0) as usize) + 2).unwrap_or(0);
+    let bytes = my.iter().map(|&n| elems(n)).chain(mc.iter().map(|&(n, k)| n * k + 2)).chain(std::iter::once(single_elems)).max().unwrap_or(4) * 16 + 64;
     // scratch can be larger than the data (Bluestein): be generous, it is only address space
     let mut w = Worker { mode, counter: 0, skip_upto, single, evaluations: 0, nontrivial: 0, states: 0, a_in: Arena::new(bytes), a_ro: DualArena::new(if mode == Mode::C15 { bytes } else { 4096 }), a_out: Arena::new(bytes), a_scr: Arena::new(bytes * 4 + (1 << 20)), dbg_build: cfg!(debug_assertions) };
     for &n in &my {
         let kmax = if n <= dense_n { kmax_dense } else { 3.min(kmax_dense) };
         w.run_len::<f32>(n, kmax);
         w.run_len::<f64>(n, kmax);
+    }
+    for &(n, k) in &mc {
+        w.run_many::<f32>(n, k);
+        w.run_many::<f64>(n, k);
+    }
+    if let Some(s) = w.single {
+        // replay of a many-chunks case
+        let (n, dl) = (s[4].max(1) as usize, s[6].max(0) as usize);
+        if dl > 9 * n + 2 && dl % n == 0 {
+            w.run_many::<f32>(n, dl / n);
+            w.run_many::<f64>(n, dl / n);
+        }
     }
     println!("STAT evaluations={} nontrivial={} states={} counter={}", w.evaluations, w.nontrivial, w.states, w.counter);
     0
